@@ -9,6 +9,8 @@ import (
 	"time"
 
 	"github.com/trustbloc/sidetree-core-go/pkg/jws"
+	"github.com/trustbloc/sidetree-core-go/pkg/util/ecsigner"
+	"github.com/trustbloc/sidetree-core-go/pkg/util/edsigner"
 	"github.com/trustbloc/sidetree-core-go/pkg/verifhooks"
 	"github.com/trustbloc/sidetree-core-go/pkg/versions/1_0/client"
 
@@ -181,9 +183,44 @@ func jwsCall(p []byte) (reply []byte) {
 		}
 		return []byte("OK:")
 	}
+	if c.Kind == "newjws-alias" {
+		// NewJWS with all headers supplied by the caller (the signer object contributes none, or the other way round); the
+		// header object is changed between construction and serialization: the serialized JWS still verifies under its key
+		seed, _ := ref.UnB64(c.KeySeed)
+		k := ref.NewKey(c.KeyType, "alias", seed)
+		kj := jwkStrings(k)
+		pub := &jws.JWK{Kty: kj["kty"], Crv: kj["crv"], X: kj["x"], Y: kj["y"]}
+		msg, _ := ref.UnB64(c.Msg)
+		var out []string
+		// (1) signer without headers, caller's map mutated afterwards
+		callerHeaders := jws.Headers{"alg": k.Alg(), "kid": "key-1"}
+		j1, err := verifhooks.NewJWSCompact(callerHeaders, msg, libSignerNoHeaders(k), func() { callerHeaders["kid"] = "key-2"; callerHeaders["extra"] = "x" }, false)
+		if err == nil {
+			_, err = verifhooks.VerifyJWS(j1, pub)
+		}
+		if err != nil {
+			out = append(out, "JWS built from caller-supplied headers does not verify after the caller changed its header object: "+err.Error())
+		}
+		// (2) no caller headers, signer returns one stored map which is changed afterwards
+		sh := &storedHeaderSigner{inner: libSigner(k, "kid-a"), h: jws.Headers{"alg": k.Alg(), "kid": "kid-a"}}
+		j2, err := verifhooks.NewJWSCompact(nil, msg, sh, func() { sh.h["kid"] = "kid-b" }, false)
+		if err == nil {
+			_, err = verifhooks.VerifyJWS(j2, pub)
+		}
+		if err != nil {
+			out = append(out, "JWS built from the signer's headers does not verify after the signer's header object changed: "+err.Error())
+		}
+		if len(out) > 0 {
+			return []byte("ERR:" + strings.Join(out, "; "))
+		}
+		return []byte("OK:")
+	}
 	jwk := &jws.JWK{Kty: c.JWK["kty"], Crv: c.JWK["crv"], X: c.JWK["x"], Y: c.JWK["y"]}
 	var err error
 	switch c.Kind {
+	case "verify-detached":
+		msg, _ := ref.UnB64(c.Msg)
+		_, err = verifhooks.VerifyJWSDetached(c.JWS, jwk, msg)
 	case "verify":
 		_, err = verifhooks.VerifyJWS(c.JWS, jwk)
 	case "parse":
@@ -218,7 +255,7 @@ func cloneJWK(m map[string]string) map[string]string {
 }
 
 func checkC09(c *hx.Ctx) {
-	c.Rule("for each of the five key types: genuine compact JWS built independently (harness/ref) and by the library's SignPayload, headers {alg}, {alg,kid} and - signed by the library - {alg[,kid],b64:true|false}, several payload sizes; oracle (constructive): verifies under its key; every single-byte alteration (2 bit patterns) of the decoded protected header that changes its value or breaks it, headers with a repeated member name (first, last, equal value), every byte of the payload, every byte of the signature, truncations/extensions/empty/swapped/zeroed r or s, every pairing with every other key of the universe, and JWKs made of the genuine characters split at another member boundary (verified in one process right after and right before the genuine JWK) must be rejected; a library signer object that signs twice must leave its first signature intact and valid; eight goroutines verifying genuine and altered JWS of equal length (and signing) at once must get the outcomes of the calls made alone (race detector in the thorough tier) (the ECDSA twin (r,n-s) is counted, not judged); malformed JWKs (missing/unknown kty or crv, coordinate length +-1, off-curve point, wrong Ed25519 size), headers without alg or with non-boolean b64, and structured-random compact strings must yield an error and never a panic; executed through the verif-tagged re-export of internal/jws in crash-isolated workers; non-trivial = altered or malformed input; distinct = distinct (jws, jwk) inputs")
+	c.Rule("for each of the five key types: genuine compact JWS built independently (harness/ref) and by the library's SignPayload, headers {alg}, {alg,kid} and - signed by the library - {alg[,kid],b64:true|false}, several payload sizes; oracle (constructive): verifies under its key; every single-byte alteration (2 bit patterns) of the decoded protected header that changes its value or breaks it, headers with a repeated member name (first, last, equal value), every byte of the payload, the detached-payload option with the genuine and with another payload (whatever the payload segment holds), every byte of the signature, truncations/extensions/empty/swapped/zeroed r or s, every pairing with every other key of the universe, and JWKs made of the genuine characters split at another member boundary (verified in one process right after and right before the genuine JWK) must be rejected; a JWS whose header objects (the caller's or the signer's) are changed between construction and serialization still verifies; a library signer object that signs twice must leave its first signature intact and valid; eight goroutines verifying genuine and altered JWS of equal length (and signing) at once must get the outcomes of the calls made alone (race detector in the thorough tier) (the ECDSA twin (r,n-s) is counted, not judged); malformed JWKs (missing/unknown kty or crv, coordinate length +-1, off-curve point, wrong Ed25519 size), headers without alg or with non-boolean b64, and structured-random compact strings must yield an error and never a panic; executed through the verif-tagged re-export of internal/jws in crash-isolated workers; non-trivial = altered or malformed input; distinct = distinct (jws, jwk) inputs")
 	c.Assume("Go crypto and btcec are trusted; a header edit counts as an alteration only if the header value changes or stops parsing (DESIGN Appendix B)")
 	pool := hx.NewPool(c, "jws", 16, 4*1024*1024, 30*time.Second)
 	defer pool.Close()
@@ -365,6 +402,13 @@ func checkC09(c *hx.Ctx) {
 				alt := h + "." + ref.B64([]byte(fmt.Sprintf(`{"n":%d,"type":"%s"}`, n+5, t))) + "." + sg
 				cases = append(cases, jwsCase{Kind: "verify", JWS: j, JWK: jwkStrings(k)}, jwsCase{Kind: "verify", JWS: alt, JWK: jwkStrings(k)})
 			}
+			// one long payload per key type: hashing it takes long enough for concurrent calls to overlap in that phase
+			pad := strings.Repeat("p", 96*1024)
+			long := []byte(fmt.Sprintf(`{"long":"%s","type":"%s"}`, pad, t))
+			j := ref.CompactJWS(k, k.Header(""), long)
+			h, _, sg := ref.SplitJWS(j)
+			alt := h + "." + ref.B64([]byte(fmt.Sprintf(`{"long":"%s","type":"%s"}`, strings.Repeat("q", 96*1024), t))) + "." + sg
+			cases = append(cases, jwsCase{Kind: "verify", JWS: j, JWK: jwkStrings(k)}, jwsCase{Kind: "verify", JWS: alt, JWK: jwkStrings(k)})
 		}
 		for round := 0; round < c.N(2, 20); round++ {
 			c.Eval()
@@ -393,6 +437,19 @@ func checkC09(c *hx.Ctx) {
 			}
 			c.Count("signer_used_twice:" + t)
 		}
+	}
+	// header objects changed between construction and serialization of a JWS
+	for _, t := range ref.KeyTypes {
+		c.Eval()
+		st, msg, ok := call(jwsCase{Kind: "newjws-alias", KeyType: t, KeySeed: ref.B64(rng.Bytes(32)), Msg: ref.B64(rng.Bytes(40))})
+		if !ok {
+			return
+		}
+		if st != "OK" {
+			c.Violation("C09 ("+t+") "+msg, map[string]interface{}{"key_type": t})
+			return
+		}
+		c.Count("header_object_changed_after_construction:" + t)
 	}
 	c.Sample(2, map[string]interface{}{"genuine_jws": gens[0].jws, "jwk": jwkStrings(gens[0].key)})
 	hx.Parallel(len(gens), 16, func(gi int) {
@@ -450,6 +507,20 @@ func checkC09(c *hx.Ctx) {
 				`{"alg":"none",` + body + `}`, `{"kid":"somebody-else",` + body + `}`, `{"alg":"` + g.key.Alg() + `",` + body + `}`,
 				`{` + body + `,"alg":"none"}`, `{` + body + `,"alg":"` + g.key.Alg() + `"}`, `{"b64":false,` + body + `}`, `{` + body + `,` + body + `}`} {
 				if !mustReject("header-repeated-member:"+kt, jwsCase{Kind: "verify", JWS: ref.B64([]byte(dup)) + "." + p + "." + s, JWK: jwk}) {
+					return
+				}
+			}
+		}
+		// ---- detached payload option: the caller supplies the payload; whatever the payload segment holds, only the payload
+		// the key signed verifies
+		other := append([]byte{}, g.payload...)
+		other[len(other)/2] ^= 0x01
+		if g.by != "library-b64-false" {
+			if !mustAccept("detached:"+kt, jwsCase{Kind: "verify-detached", JWS: h + ".." + s, JWK: jwk, Msg: ref.B64(g.payload)}) {
+				return
+			}
+			for _, compact := range []string{h + ".." + s, h + "." + p + "." + s, h + "." + ref.B64(other) + "." + s} {
+				if !mustReject("detached-other-payload:"+kt, jwsCase{Kind: "verify-detached", JWS: compact, JWK: jwk, Msg: ref.B64(other)}) {
 					return
 				}
 			}
@@ -819,4 +890,20 @@ func (s *extraHeaderSigner) Headers() jws.Headers {
 		h[k] = v
 	}
 	return h
+}
+
+// storedHeaderSigner hands out one stored header object on every call (a signer is free to do that).
+type storedHeaderSigner struct {
+	inner client.Signer
+	h     jws.Headers
+}
+
+func (s *storedHeaderSigner) Sign(data []byte) ([]byte, error) { return s.inner.Sign(data) }
+func (s *storedHeaderSigner) Headers() jws.Headers              { return s.h }
+
+func libSignerNoHeaders(k *ref.Key) client.Signer {
+	if k.Type == "Ed25519" {
+		return edsigner.New(k.EdPrivate(), "", "")
+	}
+	return ecsigner.New(k.ECDSAPrivate(), "", "")
 }
